@@ -16,7 +16,8 @@ CFG = {'level': 'fault_enumeration',
                'Note.Text, sig == decoded base64 minus 4 bytes) == true by the verifier reporting that name and hash; at least one verified '
                'signature; the message must be the returned text + blank line + signature lines; a bad first signature line of a known key, a '
                'Verifiers error or a modified text must make Open fail; well-formed notes with a good known signature must open with the '
-               'documented known/unknown partition. Held-on-observed.',
+               'documented known/unknown partition. Held-on-observed.'
+               ' Added after seeded changes: a partly failing Sign call before a third of the checked Sign calls, keys listed 3, 4 and 5 times in VerifierList, and a boundary-shift message (text tail moved into the signature bytes) shown to the SAME verifier objects right after the genuine message.',
  'level_note': 'Faults are enumerated per family (region x kind, corruption x position, scenario tables) with PRNG-chosen positions and texts; '
                'arbitrary multi-fault adversaries are sampled only. Repeated lines of an already accepted key, more than 100 signature lines, '
                'zero-length signatures and what Open does with a mismatched verifier (beyond never listing its signature) are treated as '
